@@ -46,7 +46,7 @@ func pkgShort(pkg string) string {
 
 func buildStage(c *core.Ctx, pkg string, fn *ssa.Function) *Stage {
 	s := &Stage{Pkg: pkg, Name: pkgShort(pkg) + "." + fn.Name(), Fn: fn}
-	s.Outer = c.Analyze(fn)
+	s.Outer = c.AnalyzeLoops(fn)
 	s.Problems = append(s.Problems, s.Outer.Problems...)
 	retSeen := map[string]bool{}
 	for _, p := range s.Outer.AllPaths() {
@@ -75,7 +75,7 @@ func buildStage(c *core.Ctx, pkg string, fn *ssa.Function) *Stage {
 				if g.InLoop {
 					g.Trip = tripCountOf(an, st.Instr.Block())
 				}
-				gfn, gan := c.AnalyzeSpawn(st)
+				gfn, gan := c.AnalyzeSpawnLoops(st)
 				if gfn == nil {
 					s.Problems = append(s.Problems, "go statement with unresolved target at "+c.W.Pos(st.Pos()))
 					continue
@@ -126,8 +126,38 @@ type Loop struct {
 	Bound *ir.Term
 	// Trip is the symbolic trip count when it can be expressed (nil otherwise)
 	Trip *ir.Term
-	// RangeOver is set for `range slice` loops (index from -1, i+1 < len(x)): the slice term
+	// RangeOver is set for loops visiting every element of a slice in ascending order: `range slice`
+	// (index from -1, i+1 < len(x)) or `for i := 0; i < len(x); i++`: the slice term
 	RangeOver *ir.Term
+	// indexForm: the element index of the current iteration is the phi itself (index loop), not phi+1 (range)
+	indexForm bool
+}
+
+// Index returns the term of the current element's index inside an iteration of a slice loop.
+func (l *Loop) Index(an *ir.Analysis) *ir.Term {
+	sym := an.Start[l.Header].Reg(l.Phi)
+	if l.indexForm {
+		return sym
+	}
+	return &ir.Term{Op: "bin", Aux: "+", Args: sorted2(sym, ir.Const("1"))}
+}
+
+// Elem returns the canonical term of the current element of a slice loop.
+func (l *Loop) Elem(an *ir.Analysis) *ir.Term {
+	return &ir.Term{Op: "load", Aux: "0", Args: []*ir.Term{{Op: "iaddr", Args: []*ir.Term{l.RangeOver, l.Index(an)}}}}
+}
+
+// IsElem: t denotes the current element (address-load or value-index form).
+func (l *Loop) IsElem(an *ir.Analysis, t *ir.Term) bool {
+	if t == nil {
+		return false
+	}
+	return ir.Same(t, l.Elem(an)) || ir.Same(t, &ir.Term{Op: "index", Args: []*ir.Term{l.RangeOver, l.Index(an)}})
+}
+
+// ContinueAtom: the atom whose truth means "another element follows".
+func (l *Loop) ContinueAtom(an *ir.Analysis) *ir.Term {
+	return &ir.Term{Op: "bin", Aux: "<", Args: []*ir.Term{l.Index(an), l.Bound}}
 }
 
 // countedLoop recognises the loop at header h from the analysis segments.
@@ -162,6 +192,16 @@ func countedLoop(an *ir.Analysis, h *ssa.BasicBlock) *Loop {
 				}
 			}
 		}
+		lb := ir.LoopBlocks(h)
+		for _, ps := range an.Segs {
+			for _, p := range ps {
+				if p.To == h && (p.From == nil || !lb[p.From]) {
+					if v := p.PhiOut[phi]; v != nil {
+						startT = v
+					}
+				}
+			}
+		}
 		// step: every back-edge path assigns phi := phi + c
 		sym := phiSym(an, h, phi)
 		var step int64
@@ -183,30 +223,34 @@ func countedLoop(an *ir.Analysis, h *ssa.BasicBlock) *Loop {
 			continue
 		}
 		l := &Loop{Header: h, Phi: phi, Start: startT, Step: step}
-		// bound test: the first branch of every segment from h compares phi (or phi+1) with a bound
-		for _, p := range segs {
-			for _, s := range p.Events(ir.KBranch) {
+		// bound test: a branch comparing phi (or phi+1) with a bound; its continuing polarity is read off a
+		// path that goes round the loop (a path that leaves for another reason says nothing about it)
+		ordered := append([]*ir.Path{}, segs...)
+		sort.SliceStable(ordered, func(i, j int) bool { return (ordered[i].To == h) && (ordered[j].To != h) })
+		for _, p := range ordered {
+			if !continuesLoop(p, h) {
+				continue
+			}
+			for si, s := range p.Events(ir.KBranch) {
 				at := s.Atom
 				if at.Op != "bin" || at.Aux != "<" || len(at.Args) != 2 {
 					continue
 				}
-				// forms: phi < B ; B < phi (phi > B) ; phi+1 < len(x) (range) ; negated forms give <=, >=
 				x, y := at.Args[0], at.Args[1]
 				switch {
 				case ir.Same(x, sym):
-					l.Op, l.Bound = "<", y // continue while phi < B  (when polarity true continues)
+					l.Op, l.Bound = "<", y
 				case ir.Same(y, sym):
-					l.Op, l.Bound = ">", x // B < phi
+					l.Op, l.Bound = ">", x
 				default:
 					if d, ok := plusConst(x, sym); ok && d == 1 && y.Op == "len" {
 						l.Op, l.Bound, l.RangeOver = "range", y, y.Args[0]
 					}
 				}
 				if l.Op != "" {
-					// polarity: does the loop continue on true or on false?
-					cont := continuesLoop(p, h)
-					if l.Op != "range" && s.Pol != cont {
-						// continues when atom is false:  !(phi < B) => phi >= B ; !(B < phi) => phi <= B
+					_ = si
+					if l.Op != "range" && !s.Pol {
+						// the loop continues when the atom is false:  !(phi < B) => phi >= B ; !(B < phi) => phi <= B
 						if l.Op == "<" {
 							l.Op = ">="
 						} else {
@@ -232,6 +276,15 @@ func countedLoop(an *ir.Analysis, h *ssa.BasicBlock) *Loop {
 				l.Trip = l.Bound
 			case l.Op == "range" && s0 == -1:
 				l.Trip = l.Bound // len(x)
+			}
+			if l.Op == "<" && s0 == 0 && l.Bound.Op == "len" {
+				l.RangeOver, l.indexForm = l.Bound.Args[0], true
+			}
+		}
+		if l.Step == -1 && l.Op == ">" {
+			// for x := S; x > 0; x--  runs S times
+			if b, ok := l.Bound.IntConst(); ok && b == 0 {
+				l.Trip = l.Start
 			}
 		}
 		return l
